@@ -17,6 +17,12 @@
 //! * `seq <n> <imb> ; indptr ; indices ; data ; weights ; parts`  one worker, no observer.
 //!   out: `ok ids=<…> md=<…>`
 //! * `free <n> <threads> <imb> ; …` free-running threads, oracle only (the model declines).
+//! * `gfree <n> <threads> <imb> <shape> <rowlen> <seed> <k> <pshape> <wmode>` LARGE / CORNER stream: the
+//!   instance is generated from the tokens (`big_inst`), free-running threads, oracle only;
+//!   out: `free md=<…> cut=<cut out> h=<hash of ids>` (the model answers `skip large-n (oracle only)`).
+//! * `reuse <nA> <nB> <imb> ; A: 5 sections ; B: 5 sections` the SAME `ArcSwap` value partitions A then B in a
+//!   1-worker pool; out = the result on B (`ok ids=… md=…`, the model answers with `runSeq` of B); the harness
+//!   also compares with a fresh value on B.
 //!
 //! Oracle (independent of the model): valid ids, cut_out = cut_in - edge_cut_gain,
 //! edge_cut_gain >= 0, load_out[p] <= max(load_in[p], cap), move_count >= #relabelled and,
@@ -190,13 +196,154 @@ fn parse_inst(n: &str, threads: &str, imb: &str, secs: &[Vec<&str>], max_n: usiz
     if data.iter().any(|w| w.abs() > 1000) {
         return None;
     }
-    if weights.len() != n || weights.iter().any(|&w| !(0..=1000).contains(&w)) {
+    if weights.len() != n || weights.iter().any(|&w| !(0..=(1i64 << 41)).contains(&w)) {
         return None;
     }
-    if parts.len() != n || parts.iter().any(|&p| p >= 8) {
+    if parts.len() != n || parts.iter().any(|&p| p >= 1024) {
         return None;
     }
     Some(Inst { n, threads, imb, indptr, indices, data, weights, parts })
+}
+
+// ------------------------------------------------------------------ large / corner instances
+
+const SHAPES: [&str; 2] = ["grid", "rand4"];
+
+/// Deterministic instance of the LARGE stream. `grid`: vertices numbered row by row, rows of `rowlen`
+/// (the last row may be shorter); `rand4`: random graph of maximum degree 4. Parts: `pshape` 0 random,
+/// 1 striped, 2 blocks of 4096 ids, 3 `k` contiguous blocks, 4 blocks of 8192 ids, 5 ninety percent in
+/// part 0 (far above any cap). `wmode` bit 0: vertex weights 1..5 (else 1), bit 1: edge weights 1..5 (else 1).
+fn big_inst(
+    n: usize,
+    threads: usize,
+    imb: Option<f64>,
+    shape: &str,
+    rowlen: usize,
+    seed: u64,
+    k: usize,
+    pshape: usize,
+    wmode: usize,
+) -> Inst {
+    let mut rng = Rng::new(seed);
+    let mut adj: Vec<Vec<(usize, i64)>> = vec![vec![]; n];
+    let ew = |rng: &mut Rng| if wmode & 2 != 0 { rng.range(1, 5) } else { 1 };
+    if shape == "grid" {
+        let r = rowlen.max(1);
+        for i in 0..n {
+            if (i + 1) % r != 0 && i + 1 < n {
+                let w = ew(&mut rng);
+                adj[i].push((i + 1, w));
+                adj[i + 1].push((i, w));
+            }
+            if r < n && i + r < n {
+                let w = ew(&mut rng);
+                adj[i].push((i + r, w));
+                adj[i + r].push((i, w));
+            }
+        }
+    } else {
+        for i in 0..n {
+            for _ in 0..2 {
+                let j = rng.usize(n);
+                if j != i && adj[i].len() < 4 && adj[j].len() < 4 && !adj[i].iter().any(|e| e.0 == j) {
+                    let w = ew(&mut rng);
+                    adj[i].push((j, w));
+                    adj[j].push((i, w));
+                }
+            }
+        }
+    }
+    let mut indptr = vec![0usize];
+    let mut indices = vec![];
+    let mut data = vec![];
+    for row in adj.iter_mut() {
+        row.sort();
+        for &(j, w) in row.iter() {
+            indices.push(j);
+            data.push(w);
+        }
+        indptr.push(indices.len());
+    }
+    let weights: Vec<i64> = (0..n).map(|_| if wmode & 1 != 0 { rng.range(1, 5) } else { 1 }).collect();
+    let k = k.max(1);
+    let parts: Vec<usize> = (0..n)
+        .map(|i| match pshape {
+            1 => i % k,
+            2 => (i / 4096) % k,
+            3 => (i * k / n).min(k - 1),
+            4 => (i / 8192) % k,
+            5 => {
+                if rng.chance(9, 10) {
+                    0
+                } else {
+                    rng.usize(k)
+                }
+            }
+            _ => rng.usize(k),
+        })
+        .collect();
+    Inst { n, threads, imb, indptr, indices, data, weights, parts }
+}
+
+fn gfree_op(n: usize, threads: usize, imb: Option<f64>, shape: &str, rowlen: usize, seed: u64, k: usize, pshape: usize, wmode: usize) -> String {
+    let imb_tok = match imb {
+        None => "none".to_string(),
+        Some(x) => format!("{:x}", x.to_bits()),
+    };
+    format!("gfree {} {} {} {} {} {} {} {} {}", n, threads, imb_tok, shape, rowlen, seed, k, pshape, wmode)
+}
+
+fn parse_gfree(head: &[&str]) -> Option<Inst> {
+    if head.len() != 10 {
+        return None;
+    }
+    let n: usize = head[1].parse().ok()?;
+    let threads: usize = head[2].parse().ok()?;
+    let imb = parse_imb(head[3])?;
+    let shape = head[4];
+    let rowlen: usize = head[5].parse().ok()?;
+    let seed: u64 = head[6].parse().ok()?;
+    let k: usize = head[7].parse().ok()?;
+    let pshape: usize = head[8].parse().ok()?;
+    let wmode: usize = head[9].parse().ok()?;
+    if n < 1 || n > 200_000 || threads < 1 || threads > 16 || !SHAPES.contains(&shape) || k < 1 || k > 4096 {
+        return None;
+    }
+    if rowlen > 1_000_000 || pshape > 5 || wmode > 3 {
+        return None;
+    }
+    Some(big_inst(n, threads, imb, shape, rowlen, seed, k, pshape, wmode))
+}
+
+fn ids_hash(ids: &[usize]) -> u64 {
+    let mut h = 0xcbf2_9ce4_8422_2325u64;
+    for &x in ids {
+        h = (h ^ x as u64).wrapping_mul(0x100_0000_01b3);
+    }
+    h
+}
+
+/// Two successive calls on ONE `ArcSwap` value (1-worker pool): returns the outcome of the second call.
+fn run_reuse(a: &Inst, b: &Inst) -> Outcome {
+    let (a, b) = (a.clone(), b.clone());
+    let r = catch_timeout(60, move || {
+        let mut algo = coupe::ArcSwap { max_imbalance: b.imb };
+        let ma: coupe::sprs::CsMat<i64> = coupe::sprs::CsMat::new((a.n, a.n), a.indptr.clone(), a.indices.clone(), a.data.clone());
+        let mb: coupe::sprs::CsMat<i64> = coupe::sprs::CsMat::new((b.n, b.n), b.indptr.clone(), b.indices.clone(), b.data.clone());
+        let mut ia = a.parts.clone();
+        let mut ib = b.parts.clone();
+        with_pool(1, || {
+            let _ = algo.partition(&mut ia, (ma.view(), &a.weights[..]));
+            let r = algo.partition(&mut ib, (mb.view(), &b.weights[..]));
+            (r, ib)
+        })
+    });
+    match r {
+        Caught::Ok((Ok(md), ids)) => Outcome::Ok(md_vals(&md), ids),
+        Caught::Ok((Err(e), _)) => Outcome::Err(format!("{:?}", e)),
+        Caught::Panic(m) => Outcome::Panic(m),
+        Caught::Hang => Outcome::Hang,
+    }
 }
 
 // ------------------------------------------------------------------ scheduler
@@ -853,15 +1000,25 @@ pub fn run_op(ctx: &mut Ctx, op: &str) {
     let secs = sections(op);
     let head = secs[0].clone();
     let kind = head.first().copied().unwrap_or("");
+    let mut first: Option<Inst> = None; // `reuse`: the input of the first call
     let inst = match (kind, head.len()) {
-        ("ctl", 4) => parse_inst(head[1], head[2], head[3], &secs[1..], 64),
+        ("ctl", 4) => parse_inst(head[1], head[2], head[3], &secs[1..], 512),
         ("free", 4) => parse_inst(head[1], head[2], head[3], &secs[1..], 4096),
-        ("seq", 3) => parse_inst(head[1], "1", head[2], &secs[1..], 64),
+        ("seq", 3) => parse_inst(head[1], "1", head[2], &secs[1..], 20001),
+        ("gfree", 10) if secs.len() == 1 => parse_gfree(&head),
+        ("reuse", 4) if secs.len() == 11 => {
+            first = parse_inst(head[1], "1", head[3], &secs[1..6], 4096);
+            if first.is_some() {
+                parse_inst(head[2], "1", head[3], &secs[6..], 4096)
+            } else {
+                None
+            }
+        }
         _ => None,
     };
     let sched: Option<Vec<Vec<usize>>> = if kind == "ctl" && secs.len() >= 6 {
         secs[6..].iter().map(|s| nums::<usize>(s)).collect()
-    } else if secs.len() == 6 {
+    } else if secs.len() == 6 || kind == "gfree" || kind == "reuse" {
         Some(vec![])
     } else {
         None
@@ -914,20 +1071,56 @@ pub fn run_op(ctx: &mut Ctx, op: &str) {
             }
         }
         _ => {
-            let out = run_real(&inst, || {});
+            let out = if let Some(a) = &first { run_reuse(a, &inst) } else { run_real(&inst, || {}) };
+            if let (Some(_), Outcome::Ok(md, ids)) = (&first, &out) {
+                // same input => same output, whatever the value was used for before
+                let mut one = inst.clone();
+                one.threads = 1;
+                ctx.count("reuse");
+                match run_real(&one, || {}) {
+                    Outcome::Ok(md2, ids2) if md2 == *md && ids2 == *ids => {}
+                    _ => verdicts.push(("arcswap-history-dependent", "second call on a reused ArcSwap value differs from a fresh one".into())),
+                }
+            }
             match &out {
                 Outcome::Ok(md, ids) => {
-                    line = if kind == "seq" {
+                    line = if kind == "seq" || kind == "reuse" {
                         format!("ok ids={} md={}", ids_string(ids), md_string(md))
+                    } else if kind == "gfree" {
+                        format!("free md={} cut={} h={:x}", md_string(md), inst.cut(ids), ids_hash(ids))
                     } else {
                         format!("free ids={} md={}", ids_string(ids), md_string(md))
                     };
                     if sym {
-                        verdicts = oracle(&inst, md, ids, None);
+                        verdicts.extend(oracle(&inst, md, ids, None));
                     } else {
                         ctx.count("asymmetric_graph_oracle_skipped");
                     }
-                    ctx.count(if kind == "seq" { "seq_runs" } else { "free_runs" });
+                    ctx.count(match kind {
+                        "seq" => "seq_runs",
+                        "reuse" => "reuse_runs",
+                        "gfree" => "gfree_runs",
+                        _ => "free_runs",
+                    });
+                    if kind == "gfree" {
+                        *ctx.hist.entry("gfree_moves".into()).or_insert(0) += md.moves as u64;
+                        *ctx.hist.entry("gfree_races".into()).or_insert(0) += md.races as u64;
+                        *ctx.hist.entry("gfree_locked".into()).or_insert(0) += md.locked as u64;
+                        *ctx.hist.entry("gfree_bad_balance".into()).or_insert(0) += md.badbal as u64;
+                        let pc = usize::max(2, 1 + inst.parts.iter().cloned().max().unwrap_or(0));
+                        let mut l = vec![0i64; pc];
+                        for (i, &p) in inst.parts.iter().enumerate() {
+                            l[p] += inst.weights[i];
+                        }
+                        let total: i64 = l.iter().sum();
+                        if let Some(x) = inst.imb {
+                            if let Some(cap) = exact_cap(x, total, pc) {
+                                if l.iter().any(|&v| v > cap) {
+                                    ctx.count("gfree_input_above_cap");
+                                }
+                            }
+                        }
+                    }
                     if kind == "free" {
                         *ctx.hist.entry("free_races".into()).or_insert(0) += md.races as u64;
                         *ctx.hist.entry("free_locked".into()).or_insert(0) += md.locked as u64;
@@ -1214,7 +1407,154 @@ fn explore(inst: &Inst, reduce: bool, cap: usize, mut f: impl FnMut(&CtlRun)) ->
     }
 }
 
+/// LARGE / CORNER stream (size-gated and corner-gated code paths): big sparse graphs under
+/// free-running threads (oracle only), `work_share` corners, part-count corners, mid-size
+/// controlled runs and sequential model comparison, object reuse.
+fn large_stream(ctx: &mut Ctx) {
+    let imbs = [None, Some(0.0), Some(0.05)];
+    let pools = [1usize, 2, 3, 5, 7, 16];
+    let ks = [2usize, 3, 4, 5, 6, 7, 8, 64];
+    // ---- big graphs, free-running, full oracle
+    let mut sizes: Vec<usize> = vec![4097, 8193, 16385 + 37, 20001, 65537 + 11, 70001];
+    if !ctx.quick() {
+        sizes.extend([131_077, 140_003, 4097, 8193, 12_289, 20001, 32_769 + 5, 70001, 100_003]);
+    }
+    let reps = ctx.budget(1, 3);
+    for rep in 0..reps {
+        for (j, &n) in sizes.iter().enumerate() {
+            let shape = SHAPES[(j + rep + ctx.rng.usize(2)) % 2];
+            let rowlen = *ctx.rng.pick(&[4096usize, 8192, 64, 265, 1000, 1]);
+            let threads = pools[(j + 2 * rep + ctx.rng.usize(6)) % 6];
+            let imb = imbs[(j + rep) % 3];
+            let k = ks[ctx.rng.usize(ks.len())];
+            // block-aligned / pre-sorted id layouts as well as random ones
+            let pshape = if imb.is_some() && ctx.rng.chance(1, 4) { 5 } else { ctx.rng.usize(5) };
+            let wmode = ctx.rng.usize(4);
+            let seed = ctx.rng.next() >> 1;
+            ctx.count(&format!("large:n={}", n));
+            ctx.count(&format!("large:pool={}", threads));
+            ctx.count(&format!("large:shape={}", shape));
+            ctx.count(&format!("large:pshape={}", pshape));
+            ctx.count(&format!("large:parts={}", k));
+            run_op(ctx, &gfree_op(n, threads, imb, shape, rowlen, seed, k, pshape, wmode));
+        }
+    }
+    // ---- work_share corners: n < threads, n = threads + 1, n = threads*c + r (last chunk shorter)
+    for &t in &pools[1..] {
+        let mut ns = vec![t - 1, t + 1, 2 * t + 1, 100 * t + 1, 1000 * t + 2, 1000 * t + t - 1];
+        if !ctx.quick() {
+            ns.extend([3 * t + 2, 4096 * t + 1, 4096 * t - 1, 333 * t + 3]);
+        }
+        for n in ns {
+            if n < 2 {
+                continue;
+            }
+            let shape = SHAPES[ctx.rng.usize(2)];
+            let rowlen = *ctx.rng.pick(&[1usize, 7, 64]);
+            let imb = imbs[ctx.rng.usize(3)];
+            let k = 2 + ctx.rng.usize(4);
+            let seed = ctx.rng.next() >> 1;
+            ctx.count("corner:workshare");
+            let (ps, wm) = (ctx.rng.usize(4), ctx.rng.usize(4));
+            run_op(ctx, &gfree_op(n, t, imb, shape, rowlen, seed, k, ps, wm));
+        }
+    }
+    // ---- part-count corners
+    // (the gain loop is O(parts * degree) per attempt: thousands of parts only on ~1000-4000 vertices)
+    for &k in &[63usize, 64, 65, 128, 255, 256, 257, 1000, 4096] {
+        if k == 4096 && ctx.quick() {
+            continue;
+        }
+        let n = if k >= 1000 { k + 25 } else { 3001 };
+        let threads = pools[ctx.rng.usize(6)];
+        let seed = ctx.rng.next() >> 1;
+        ctx.count(&format!("corner:parts={}", k));
+        let (im, sh, ps) = (imbs[ctx.rng.usize(3)], SHAPES[ctx.rng.usize(2)], ctx.rng.usize(2));
+        run_op(ctx, &gfree_op(n, threads, im, sh, 64, seed, k, ps, 1));
+    }
+    // ---- controlled scheduler on work_share corners (small) and two mid-size runs (default policy,
+    //      exact trace comparison with the model: chunk boundaries, last chunk shorter)
+    for &(n, t) in &[(4usize, 3usize), (5, 4), (3, 8), (7, 3), (9, 4), (10, 3), (7, 5), (9, 8), (2, 2), (3, 2)] {
+        let mut e = BTreeMap::new();
+        for i in 0..n - 1 {
+            add_edge(&mut e, i, i + 1, ctx.rng.range(1, 3));
+        }
+        if n > 3 && ctx.rng.chance(1, 2) {
+            add_edge(&mut e, 0, n - 1, 1);
+        }
+        let k = 2 + ctx.rng.usize(2);
+        let parts: Vec<usize> = (0..n).map(|i| i % k).collect();
+        let inst = Inst::from_edges(n, t, Some(*ctx.rng.pick(&[0.5, 2.0])), &e, vec![1; n], parts);
+        let seed = ctx.rng.next();
+        let d = run_controlled(&inst, Policy::Random { rng: Rng::new(seed), kind: 0, last: None });
+        ctx.count("corner:ctl-workshare");
+        run_op(ctx, &inst.ctl_op(&d.sched));
+    }
+    {
+        // 64 parts (ids 0..63 spread over 10 vertices, most ids unused) under the controlled scheduler
+        let n = 10;
+        let mut e = BTreeMap::new();
+        for i in 0..n - 1 {
+            add_edge(&mut e, i, i + 1, 1);
+        }
+        let parts: Vec<usize> = (0..n).map(|i| (i * 7) % 64).chain(std::iter::once(63)).take(n).collect();
+        let mut parts = parts;
+        parts[n - 1] = 63;
+        let inst = Inst::from_edges(n, 3, Some(2.0), &e, vec![1; n], parts);
+        let seed = ctx.rng.next();
+        let d = run_controlled(&inst, Policy::Random { rng: Rng::new(seed), kind: 1, last: None });
+        ctx.count("corner:ctl-parts=64");
+        run_op(ctx, &inst.ctl_op(&d.sched));
+    }
+    for &(n, t) in &[(257usize, 7usize), (300, 16 - 8)] {
+        let seed = ctx.rng.next() >> 1;
+        let (sh, ps) = (SHAPES[ctx.rng.usize(2)], ctx.rng.usize(2));
+        let mut inst = big_inst(n, t, Some(0.5), sh, 16, seed, 3, ps, 3);
+        inst.threads = t;
+        ctx.count("corner:ctl-mid");
+        run_op(ctx, &inst.ctl_op(&[]));
+    }
+    // ---- sequential model comparison at pool size 1, as large as the compiled driver handles in seconds
+    //      (list-based model: 8193 vertices 0.7 s, 20001 vertices ~15 s, hence 20001 in the thorough tier only)
+    let seq_sizes: &[usize] = if ctx.quick() { &[1025, 4097, 8193] } else { &[1025, 2049 + 3, 4097, 6001, 8193, 12_289, 16385 + 37, 20001] };
+    for &n in seq_sizes {
+        let seed = ctx.rng.next() >> 1;
+        let k = 2 + ctx.rng.usize(2);
+        let (im, sh, rl) = (imbs[ctx.rng.usize(3)], SHAPES[ctx.rng.usize(2)], *ctx.rng.pick(&[64usize, 4096, 1]));
+        let (ps, wm) = (ctx.rng.usize(5), ctx.rng.usize(4));
+        let inst = big_inst(n, 1, im, sh, rl, seed, k, ps, wm);
+        ctx.count(&format!("large:seq-model n={}", n));
+        run_op(ctx, &inst.seq_op());
+    }
+    // seq corners: 64 parts on 64..80 vertices; vertex weights near 2^37 (totals < 2^44: exact in f64, see the driver's floatOk)
+    for c in 0..3 {
+        let seed = ctx.rng.next() >> 1;
+        let mut inst = big_inst(64 + 8 * c, 1, imbs[c % 3], SHAPES[c % 2], 8, seed, 64, c % 2, 3);
+        if c == 2 {
+            for w in inst.weights.iter_mut() {
+                *w = (1i64 << 37) + ctx.rng.range(0, 1000);
+            }
+            ctx.count("corner:weights-2^37");
+        }
+        ctx.count("corner:seq-parts=64");
+        run_op(ctx, &inst.seq_op());
+    }
+    // ---- reuse: the same ArcSwap value for two successive calls
+    for c in 0..ctx.budget(4, 20) {
+        let na = if c == 0 { 3001 } else { 2 + ctx.rng.usize(60) };
+        let nb = if c == 1 { 2 } else { 2 + ctx.rng.usize(60) };
+        let imb = imbs[c % 3];
+        let (sa, sb) = (ctx.rng.next() >> 1, ctx.rng.next() >> 1);
+        let (ka, pa, kb, pb) = (2 + ctx.rng.usize(6), ctx.rng.usize(4), 2 + ctx.rng.usize(3), ctx.rng.usize(4));
+        let a = big_inst(na, 1, imb, SHAPES[c % 2], 8, sa, ka, pa, 3);
+        let b = big_inst(nb, 1, imb, SHAPES[(c + 1) % 2], 5, sb, kb, pb, 3);
+        let op = norm(&format!("reuse {} {} {} {} {}", na, nb, b.imb_tok(), a.body(), b.body()));
+        run_op(ctx, &op);
+    }
+}
+
 pub fn generate(ctx: &mut Ctx) {
+    large_stream(ctx);
     // ---- controlled random schedules: discovery run, then recorded replay
     let n_ctl = ctx.budget(150, 5000);
     let mut done = 0;
@@ -1416,7 +1756,7 @@ pub fn generate(ctx: &mut Ctx) {
                         }
                     }
                 } else {
-                    inst.parts[0] = 9
+                    inst.parts[0] = 5000
                 }
             }
             7 => inst.weights[0] = -1,
